@@ -10,6 +10,12 @@ PROVED = ['inv_spec (all a, m >= 1)', 'zmod_spec', 'extgcd fuel sufficiency', 'p
           'kronecker: range {-1,0,1}, b = 0 and both-even clauses; bounded equality with the reference symbol']
 NOT_PROVED = ['kronecker = Kronecker symbol for unbounded arguments (needs quadratic reciprocity; not available in MathComp 1.15/stdlib)']
 
+CLAIM = dict(
+    technique='Coq proof about the Gallina model (inv/zmod/perfect_power/sieve/kronecker) + extracted-model-vs-implementation correspondence',
+    text='Theorems in coq/Props/C19.v hold for all integers (no bound); the model is tied to /repo by running the extracted model and impl_svc on the same inputs (exhaustive boxes + random big integers).',
+    note='Kronecker = mathematical symbol is proved only on a bounded box (quadratic reciprocity unavailable); BigInt::nth_root is modelled by its floor-root specification; trusted base listed in the evidence file.',
+    ref='DESIGN.md section 4, C19')
+
 def egcd(a, b):
     while b: a, b = b, a % b
     return abs(a)
